@@ -292,7 +292,7 @@ func genFactor(kd fkind) func(g *vlib.G) {
 		if !kd.hasBlocked {
 			nbs, nxs = []int{1}, []int{0}
 		}
-		fams := generalFams(N, true)
+		fams := generalFams(N, g.Thorough())
 		for m := 0; m <= N; m++ {
 			for n := 0; n <= N; n++ {
 				for _, f := range fams {
